@@ -47,7 +47,7 @@ func cs(v uint64) []byte {
 
 func segF(b []byte) Seg        { return Seg{K: "F", B: b, N: uint64(len(b))} }
 func segC(n uint64, e int) Seg { return Seg{K: "C", B: cs(n), E: e, N: n} }
-func segV(n uint64) Seg        { return Seg{K: "V", B: cs(n), N: n} }
+func segV(n uint64, of int) Seg { return Seg{K: "V", B: cs(n), N: n, E: of} } // of: size of the collection it indexes
 func segLB(b []byte) []Seg {
 	return []Seg{{K: "L", B: cs(uint64(len(b))), N: uint64(len(b))}, {K: "B", B: b, N: uint64(len(b))}}
 }
@@ -92,9 +92,26 @@ func txSegs(tx *btc.Tx) (s []Seg) {
 }
 
 // Commands of the alphabet, in the order of the specification's Cmds.
-var allCmds = []string{"version", "verack", "addr", "inv", "getdata", "notfound", "getblocks", "getheaders", "headers",
-	"tx", "block", "cmpctblock", "getblocktxn", "blocktxn", "ping", "pong", "feefilter", "sendcmpct", "sendheaders",
-	"getaddr", "getmp", "getmpdone", "xauth", "authack", "filterload", "unknown", "frame"}
+// A name with a trailing digit is a second valid instance of the same wire command (see wireName).
+var allCmds = []string{"version", "verack", "addr", "inv", "getdata", "notfound", "getblocks", "getheaders", "headers", "headers2",
+	"tx", "block", "block2", "cmpctblock", "cmpctblock2", "getblocktxn", "getblocktxn1", "getblocktxn3", "blocktxn", "ping", "pong",
+	"feefilter", "sendcmpct", "sendheaders", "getaddr", "getmp", "getmpdone", "xauth", "authack", "filterload", "unknown", "frame"}
+
+func wireName(cmd string) string {
+	switch cmd {
+	case "unknown":
+		return "verifxyz"
+	case "headers2":
+		return "headers"
+	case "block2":
+		return "block"
+	case "cmpctblock2":
+		return "cmpctblock"
+	case "getblocktxn1", "getblocktxn3":
+		return "getblocktxn"
+	}
+	return cmd
+}
 
 // valid returns the valid instance of cmd. nodeNonce: the 8-byte nonce the node announced in its own version
 // message on this connection (xauth signs it); nil before it is known.
@@ -140,11 +157,24 @@ func (w *World) valid(cmd string, nodeNonce []byte) []Seg {
 		// header, nonce, short ids of every non-prefilled tx (tx1), the coinbase prefilled at differential index 0
 		nonce := []byte{1, 2, 3, 4, 5, 6, 7, 8}
 		sid := shortID(w.b1[:80], nonce, w.tx1.WTxID().Hash[:])
-		s := []Seg{segF(w.b1[:80]), segF(nonce), segC(1, 6), segF(sid), segC(1, 0), segV(0)}
+		s := []Seg{segF(w.b1[:80]), segF(nonce), segC(1, 6), segF(sid), segC(1, 0), segV(0, 2)}
 		s = append(s, txSegs(w.cb1)...)
 		return s
+	case "headers2": // a header whose parent the node does not know (unless it has B1's)
+		return []Seg{segC(1, 81), segF(append(append([]byte(nil), w.b2[:80]...), 0))}
+	case "block2": // a valid block whose parent the node does not know (unless it has B1's header)
+		s := []Seg{segF(w.b2[:80]), segC(1, 0)}
+		return append(s, txSegs(w.cb2)...)
+	case "cmpctblock2": // the same block in compact form: no short ids, the coinbase prefilled
+		s := []Seg{segF(w.b2[:80]), segF([]byte{8, 7, 6, 5, 4, 3, 2, 1}), segC(0, 6), segC(1, 0), segV(0, 1)}
+		return append(s, txSegs(w.cb2)...)
+	// getblocktxn: differentially encoded indexes into blocks with two, one and four transactions
 	case "getblocktxn":
-		return []Seg{segF(w.blk2Hash[:]), segC(2, 0), segV(0), segV(0)}
+		return []Seg{segF(w.blk2Hash[:]), segC(2, 0), segV(0, 2), segV(0, 2)}
+	case "getblocktxn1":
+		return []Seg{segF(w.tipHash[:]), segC(1, 0), segV(0, 1)}
+	case "getblocktxn3": // absolute 0, 2, 3: the last one is the last transaction
+		return []Seg{segF(w.blk4Hash[:]), segC(3, 0), segV(0, 4), segV(1, 4), segV(0, 4)}
 	case "blocktxn":
 		s := []Seg{segF(w.b1Hash[:]), segC(1, 0)}
 		s = append(s, txSegs(w.tx1)...)
@@ -270,6 +300,39 @@ func perturb(s []Seg, k string, f int, rnd *rand.Rand) (pl []byte, ok bool) {
 		case "cntwrap":
 			return repl(append([]byte{0xff}, le64(wrapCount(x.N, x.E))...), -1), true
 		}
+	case "vec+1", "vec-1": // the vector grows / shrinks consistently: count and elements agree
+		x := fld("C")
+		if x == nil || x.N == 0 {
+			return nil, false
+		}
+		i, last := f, f // segment index (0-based) of the first element, then of the last one
+		for n := uint64(0); n < x.N; n++ {
+			last = i
+			if x.E > 0 {
+				i++
+			} else {
+				i = skipElem(s, i)
+			}
+		}
+		if i > len(s) || last >= len(s) {
+			return nil, false
+		}
+		if k == "vec+1" {
+			o := append(append(cut(f-1), cs(x.N+1)...), join(s[f:i])...)
+			o = append(o, join(s[last:i])...) // the last element once more
+			return append(o, join(s[i:])...), true
+		}
+		o := append(append(cut(f-1), cs(x.N-1)...), join(s[f:last])...)
+		return append(o, join(s[i:])...), true
+	case "val+1", "val-1":
+		x := fld("V")
+		if x == nil || (k == "val-1" && x.N == 0) {
+			return nil, false
+		}
+		if k == "val+1" {
+			return repl(cs(x.N+1), -1), true
+		}
+		return repl(cs(x.N-1), -1), true
 	case "lenover1", "lenfd", "lenfe", "lenff":
 		x := fld("L")
 		if x == nil {
